@@ -96,6 +96,26 @@ theorem nlf_cDec (i : Nat) : NoLeakF (cDec i) := by
   · exact hn q hq
   · subst hq; simp
 
+theorem nlf_cFinEarly (i : Nat) : NoLeakF (cFinEarly i) := by
+  intro k k' h hn q hq
+  unfold cFinEarly at h
+  split at h <;> try contradiction
+  split at h <;> try contradiction
+  simp only [Option.some.injEq] at h; subst h
+  rcases List.mem_or_eq_of_mem_set hq with hq | hq
+  · exact hn q hq
+  · subst hq; simp
+
+theorem nlf_cLateWrite (i : Nat) : NoLeakF (cLateWrite i) := by
+  intro k k' h hn q hq
+  unfold cLateWrite at h
+  split at h <;> try contradiction
+  split at h <;> try contradiction
+  simp only [Option.some.injEq] at h; subst h
+  rcases List.mem_or_eq_of_mem_set hq with hq | hq
+  · exact hn q hq
+  · subst hq; simp
+
 def NoLeakAll (s : State) : Prop := ∀ (c : Nat) (k : Conn), s.conns[c]? = some k → NoLeak k
 
 theorem noleak_updConn {s s' : State} {c : Cid} {f : Conn → Option Conn} (hf : NoLeakF f)
@@ -185,7 +205,17 @@ theorem noleak_step {cfg : Cfg} (hd : cfg.decDeferred = true) {s s' : State} (a 
     split at h
     · exact noleak_updConn (nlf_cStartP i) hn h
     · exact noleak_updConn (nlf_cStart i) hn h
-  | fin c i => exact noleak_updConn (nlf_cFin i) hn h
+  | fin c i =>
+    simp only [step] at h
+    split at h
+    · contradiction
+    · exact noleak_updConn (nlf_cFin i) hn h
+  | finEarly c i =>
+    simp only [step] at h
+    split at h
+    · exact noleak_updConn (nlf_cFinEarly i) hn h
+    · contradiction
+  | lateWrite c i => exact noleak_updConn (nlf_cLateWrite i) hn h
   | write c i => exact noleak_updConn (nlf_cWrite i) hn h
   | skip c i =>
     simp only [step, hd] at h
@@ -379,6 +409,40 @@ theorem keepsL_cDec (i j : Nat) : KeepsL i (cDec j) := by
   · simp only
     rw [List.getElem?_set_ne hij]; exact hq
 
+theorem keepsL_cFinEarly (i j : Nat) : KeepsL i (cFinEarly j) := by
+  intro k k' h
+  unfold cFinEarly at h
+  split at h <;> try contradiction
+  rename_i q' hq'
+  split at h <;> try contradiction
+  rename_i hst
+  simp only [Option.some.injEq] at h; subst h
+  refine ⟨rfl, id, ?_⟩
+  intro q hq hqs
+  by_cases hij : j = i
+  · subst hij
+    rw [hq'] at hq; cases hq
+    rw [hst] at hqs; contradiction
+  · simp only
+    rw [List.getElem?_set_ne hij]; exact hq
+
+theorem keepsL_cLateWrite (i j : Nat) : KeepsL i (cLateWrite j) := by
+  intro k k' h
+  unfold cLateWrite at h
+  split at h <;> try contradiction
+  rename_i q' hq'
+  split at h <;> try contradiction
+  rename_i hst
+  simp only [Option.some.injEq] at h; subst h
+  refine ⟨rfl, id, ?_⟩
+  intro q hq hqs
+  by_cases hij : j = i
+  · subst hij
+    rw [hq'] at hq; cases hq
+    rw [hst] at hqs; contradiction
+  · simp only
+    rw [List.getElem?_set_ne hij]; exact hq
+
 theorem keepsL_cRecvRsp (i j : Nat) : KeepsL i (cRecvRsp j) := by
   intro k k' h; unfold cRecvRsp at h; split at h <;> try contradiction
   split at h <;> try contradiction
@@ -504,7 +568,17 @@ theorem leaked_step {cfg : Cfg} {s s' : State} {c i : Nat}
     split at h
     · exact leaked_updConn (keepsL_cStartP i j) hd h
     · exact leaked_updConn (keepsL_cStart i j) hd h
-  | fin c' j => exact leaked_updConn (keepsL_cFin i j) hd h
+  | fin c' j =>
+    simp only [step] at h
+    split at h
+    · contradiction
+    · exact leaked_updConn (keepsL_cFin i j) hd h
+  | finEarly c' j =>
+    simp only [step] at h
+    split at h
+    · exact leaked_updConn (keepsL_cFinEarly i j) hd h
+    · contradiction
+  | lateWrite c' j => exact leaked_updConn (keepsL_cLateWrite i j) hd h
   | write c' j => exact leaked_updConn (keepsL_cWrite i j) hd h
   | skip c' j => exact leaked_updConn (keepsL_cSkip i _ j) hd h
   | dec c' j => exact leaked_updConn (keepsL_cDec i j) hd h
